@@ -117,6 +117,15 @@ pub fn run(ctx: &Ctx) -> i32 {
     }).reduce(Acc::new, Acc::merge);
     acc = acc.merge(aw);
     if std::env::var("VH_DEBUG").is_ok() { eprintln!("wide done {:?}", ctx.t0.elapsed()); }
+    // every envelope an operation SEQUENCE produces round-trips too (the families above are built by the constructors only): breadth-first to
+    // depth 2 over the full operation alphabet of C04, from the small trees, the decode-only shapes and the rich roots
+    {
+        let mut rm = families::plain(3); rm.extend(families::decode_only());
+        let roots = crate::explore::roots_from(&rm);
+        let on_state = |e: &Envelope, desc: &dyn Fn() -> String, acc: &mut Acc| { roundtrip(acc, e, None, "reached-by-operations", false, &|| format!("bfs/{}", desc())); };
+        let (st, ab) = crate::explore::explore(&roots, &crate::explore::ops_full(), if th { 3 } else { 2 }, &on_state, &|_, _, _, _, _| {}, None);
+        acc = acc.merge(ab); acc.add("bfs_states_round_tripped", st.states as u64);
+    }
     let evals = acc.get("roundtrips");
     let cov = json!({"evaluations": evals,
         "rule": "(all subsets for envelopes with at most 10 distinct digests - every tree of the weight-bounded families; for the hand-built decode-only shapes with more, the empty / singleton / pair / full target sets) case = an envelope (leaf value x position, or tree x obscuration pattern) encoded, decoded, compared position by position, re-encoded; UR round trip on leaves, plain trees and single-target patterns; distinct = (tree, subset, mode, action) or leaf encoding",
